@@ -88,8 +88,23 @@ class Translator:
     def call(self, e):
         f = e.func
         pos = list(e.args)
-        if any(isinstance(a, ast.Starred) for a in pos) or any(k.arg is None for k in e.keywords):
-            raise Unsupported("* / ** in call")
+        if any(k.arg is None for k in e.keywords):
+            raise Unsupported("** in call")
+        if any(isinstance(a, ast.Starred) for a in pos):
+            # f(a, b, *rest): one starred argument, the last one, and no keywords (PyLite's ECallStar)
+            if (e.keywords or not isinstance(pos[-1], ast.Starred)
+                    or any(isinstance(a, ast.Starred) for a in pos[:-1])):
+                raise Unsupported("* in call other than as the single last argument")
+            star = self.expr(pos[-1].value)
+            args = [self.expr(a) for a in pos[:-1]]
+            if isinstance(f, ast.Name) and f.id not in ("isinstance", "all", "any", "tuple", "list"):
+                return "(ECallStar %s %s %s)" % (cstr(f.id), lst(args), star)
+            if isinstance(f, ast.Attribute) and not (isinstance(f.value, ast.Call)):
+                name = self.dotted(f)
+                if name is not None:
+                    return "(ECallStar %s %s %s)" % (cstr(name), lst(args), star)
+                return "(ECallStar %s %s %s)" % (cstr("meth:" + f.attr), lst([self.expr(f.value)] + args), star)
+            raise Unsupported("callee of a call with * " + ast.dump(f)[:100])
         if (isinstance(f, ast.Name) and f.id in ("all", "any", "tuple", "list") and len(pos) == 1
                 and not e.keywords and isinstance(pos[0], ast.GeneratorExp)):
             g = pos[0]
@@ -130,8 +145,14 @@ class Translator:
         all / any, where any(e for i in A for j in B) is any(any(e for j in B) for i in A) (same order of
         evaluation, same laziness)"""
         g = generators[0]
-        if g.ifs or g.is_async or not isinstance(g.target, ast.Name):
+        if g.ifs or g.is_async:
             raise Unsupported("comprehension form")
+        if not isinstance(g.target, ast.Name):
+            # for a, b in it: a tuple target (PyLite's ECompT), single for clause only
+            if len(generators) > 1:
+                raise Unsupported("comprehension form")
+            return "(ECompT %s %s %s %s)" % (kind, lst([cstr(n) for n in target_names(g.target)]), self.expr(g.iter),
+                                             self.expr(elt))
         if len(generators) > 1:
             # [e for i in A for j in B] is the concatenation of [[e for j in B] for i in A]
             body = self.comp(kind, generators[1:], elt)
@@ -224,6 +245,31 @@ class Translator:
             return s.value.func.value.id, s.value.args[0]
         return None
 
+    def self_method_call(self, s):
+        """self.m(args) as a statement (the method may mutate self: PyLite's SMethod, which rebinds self).
+        Admitted only when `self` is the function's first parameter and no alias of it can exist: every
+        occurrence of the name `self` in the function is the object of an attribute access / method call
+        (`self.a`, `self.m(..)`) or the value of a `return self`."""
+        if not (isinstance(s, ast.Expr) and isinstance(s.value, ast.Call) and isinstance(s.value.func, ast.Attribute)
+                and isinstance(s.value.func.value, ast.Name) and s.value.func.value.id == "self"):
+            return None
+        c = s.value
+        fn = self.function
+        if not (fn.args.args and fn.args.args[0].arg == "self"):
+            raise Unsupported("self.m(..) statement in a function whose first parameter is not self")
+        if c.keywords or any(isinstance(a, ast.Starred) for a in c.args):
+            raise Unsupported("self.m(..) statement with keyword / starred arguments")
+        ok = set()
+        for n in ast.walk(fn):
+            if isinstance(n, ast.Attribute) and isinstance(n.value, ast.Name) and n.value.id == "self":
+                ok.add(id(n.value))
+            elif isinstance(n, ast.Return) and isinstance(n.value, ast.Name) and n.value.id == "self":
+                ok.add(id(n.value))
+        for n in ast.walk(fn):
+            if isinstance(n, ast.Name) and n.id == "self" and id(n) not in ok:
+                raise Unsupported("self.m(..) statement in a function where self may be aliased")
+        return c.func.attr, list(c.args)
+
     def stmts(self, body):
         out = []
         for pos_, s in enumerate(body):
@@ -291,8 +337,11 @@ class Translator:
                 out.append("SPass")
             elif isinstance(s, ast.Expr):
                 ap = self.append_call(s)
+                sm = self.self_method_call(s)
                 if ap is not None:
                     out.append("SAppend %s %s" % (cstr(ap[0]), self.expr(ap[1])))
+                elif sm is not None:
+                    out.append("SMethod %s %s %s" % (cstr("self"), cstr(sm[0]), lst([self.expr(a) for a in sm[1]])))
                 else:
                     out.append("SExpr %s" % self.expr(s.value))
             else:
